@@ -461,6 +461,11 @@ func runC09(r *mc.Run) {
 			}
 		}
 	}
+	// large chains (the size fields are 32 bits wide: nothing in the layout bounds a chain below that)
+	for _, cl := range []int{1<<20 - 1, 1 << 20, 1<<20 + 1, 3 << 20, 1<<24 + 1} {
+		ms = append(ms, mcase{32, cl, 0, "pattern"})
+	}
+	ms = append(ms, mcase{65535, 1<<20 + 1, 16, "pattern"})
 	done := r.Parallel(len(ms), func(i int) {
 		m := ms[i]
 		id := fmt.Sprintf("msg/auth=%d,chain=%d,extra=%d,content=%s", m.a, m.c, m.e, m.content)
